@@ -735,3 +735,184 @@ theorem updateStmt_inv (t : Table) (sel : Row → Except DErr Bool) (f : Row →
         simp at this
         exact ⟨old, this, v3, v1, v2⟩
       · exact p3
+
+/-! #### ALTER TABLE ADD CONSTRAINT -/
+
+theorem keysAdmissible_spec (cols : List Nat) (rj : Bool) : ∀ (rows : List Row) (seen : List Key),
+    Table.keysAdmissible cols rj rows seen = true →
+    ((rows.map (keyOf cols)).filter (fun k => !hasNull k)).Nodup ∧
+    (∀ k ∈ (rows.map (keyOf cols)).filter (fun k => !hasNull k), k ∉ seen) ∧
+    (rj = true → ∀ r ∈ rows, hasNull (keyOf cols r) = false) := by
+  intro rows
+  induction rows with
+  | nil => intro seen _; simp
+  | cons r rs ih =>
+    intro seen h
+    unfold Table.keysAdmissible at h
+    simp only [] at h
+    by_cases hn : hasNull (keyOf cols r) = true
+    · simp only [hn, if_true, Bool.and_eq_true, Bool.not_eq_true'] at h
+      obtain ⟨i1, i2, i3⟩ := ih seen h.2
+      refine ⟨by simpa [List.filter_cons, hn] using i1, by simpa [List.filter_cons, hn] using i2, ?_⟩
+      intro hrj; rw [hrj] at h; simp at h
+    · simp only [hn, Bool.false_eq_true, if_false, Bool.and_eq_true, Bool.not_eq_true', decide_eq_false_iff_not] at h
+      obtain ⟨i1, i2, i3⟩ := ih (keyOf cols r :: seen) h.2
+      have hn' : hasNull (keyOf cols r) = false := by simpa using hn
+      refine ⟨?_, ?_, ?_⟩
+      · simp only [List.map_cons, List.filter_cons, hn', Bool.not_false, if_true, List.nodup_cons]
+        refine ⟨?_, i1⟩
+        intro hmem; exact (i2 _ hmem) List.mem_cons_self
+      · intro k hk
+        simp only [List.map_cons, List.filter_cons, hn', Bool.not_false, if_true, List.mem_cons] at hk
+        rcases hk with rfl | hk
+        · exact h.1
+        · intro hs; exact (i2 k hk) (List.mem_cons_of_mem _ hs)
+      · intro hrj x hx
+        rcases List.mem_cons.mp hx with rfl | hx
+        · exact hn'
+        · exact i3 hrj x hx
+
+theorem idxs_rebuild_inv (t : Table) (h : Inv t) : ∀ u ∈ t.idxs.map (·.rebuild t.rows), IdxInv u t.rows := by
+  intro u' hu'
+  obtain ⟨u, hu, rfl⟩ := List.mem_map.mp hu'
+  exact rebuild_inv u _ (h.idx u hu).unique
+
+theorem addPrimaryKey_inv (t : Table) (cols : List Nat) (h : Inv t) : Inv (t.addPrimaryKey cols).1 := by
+  unfold Table.addPrimaryKey
+  split
+  · exact h
+  · split
+    · exact h
+    · split
+      · exact h
+      · rename_i _ _ hadm
+        simp only [Bool.not_eq_true, Bool.not_eq_false] at hadm
+        obtain ⟨a1, _, a3⟩ := keysAdmissible_spec cols true t.rows [] hadm
+        constructor
+        · intro u' hu'
+          simp only [List.map_cons, List.mem_cons] at hu'
+          rcases hu' with rfl | hu'
+          · apply rebuild_inv
+            have : ukeys { cols := cols, skipNull := false, keys := [] } t.rows
+                = (t.rows.map (keyOf cols)).filter (fun k => !hasNull k) := by
+              simp only [ukeys, UIdx.relevant, Bool.false_and, Bool.not_false]
+              rw [List.filter_eq_self.mpr (by simp), List.filter_eq_self.mpr]
+              intro k hk
+              obtain ⟨r, hr, rfl⟩ := List.mem_map.mp hk
+              simp [a3 rfl r hr]
+            rw [this]; exact a1
+          · exact idxs_rebuild_inv t h u' hu'
+        · exact h.notNull
+        · exact h.checks
+        · intro c hc
+          simp only [Option.some.injEq] at hc; subst hc
+          exact ⟨_, List.mem_cons_self, (rebuild_cols _ _).1, (rebuild_cols _ _).2⟩
+
+theorem addUnique_inv (t : Table) (cols : List Nat) (h : Inv t) : Inv (t.addUnique cols).1 := by
+  unfold Table.addUnique
+  split
+  · exact h
+  · split
+    · exact h
+    · rename_i hadm _
+      simp only [Bool.not_eq_true, Bool.not_eq_false] at hadm
+      obtain ⟨a1, _, _⟩ := keysAdmissible_spec cols false t.rows [] hadm
+      constructor
+      · intro u' hu'
+        simp only [List.map_append, List.mem_append, List.map_cons, List.map_nil, List.mem_singleton] at hu'
+        rcases hu' with hu' | rfl
+        · exact idxs_rebuild_inv t h u' hu'
+        · apply rebuild_inv
+          have : ukeys { cols := cols, skipNull := true, keys := [] } t.rows
+              = (t.rows.map (keyOf cols)).filter (fun k => !hasNull k) := by
+            simp [ukeys, UIdx.relevant]
+          rw [this]; exact a1
+      · exact h.notNull
+      · exact h.checks
+      · intro c hc
+        obtain ⟨u, hu, h1, h2⟩ := h.pkIdx c hc
+        refine ⟨u.rebuild t.rows, ?_, by rw [(rebuild_cols u _).1]; exact h1, by rw [(rebuild_cols u _).2]; exact h2⟩
+        simp only [List.map_append, List.mem_append]
+        exact Or.inl (List.mem_map.mpr ⟨u, hu, rfl⟩)
+
+theorem checkAllRows_ok (c : Expr) : ∀ rows, Table.checkAllRows c rows = .ok () →
+    ∀ r ∈ rows, Table.checkChecks [c] r = .ok () := by
+  intro rows
+  induction rows with
+  | nil => intro _ r hr; simp at hr
+  | cons x xs ih =>
+    intro h r hr
+    unfold Table.checkAllRows at h
+    split at h
+    · simp at h
+    · rename_i hx
+      rcases List.mem_cons.mp hr with rfl | hr
+      · exact hx
+      · exact ih h r hr
+
+theorem addCheck_inv (t : Table) (c : Expr) (h : Inv t) : Inv (t.addCheck c).1 := by
+  unfold Table.addCheck
+  split
+  · exact h
+  · rename_i hok
+    constructor
+    · exact h.idx
+    · exact h.notNull
+    · intro r hr
+      rw [checkChecks_append]
+      exact ⟨h.checks r hr, checkAllRows_ok c t.rows hok r hr⟩
+    · exact h.pkIdx
+
+/-! #### every statement -/
+
+theorem insertStmt_inv (thr : Nat) (t : Table) (rows : List Row) (mode : Table.InsMode) (h : Inv t) :
+    Inv (t.insertStmt thr rows mode).1 := by
+  unfold Table.insertStmt
+  split
+  · exact h
+  · cases mode with
+    | plain =>
+      simp only []
+      split
+      · exact h
+      · rename_i hv; exact insert_plain_inv thr t rows h hv
+    | replace =>
+      simp only []
+      split
+      · exact h
+      · rename_i hv
+        exact replace_fold_inv thr rows t t.notNull t.checks h rfl rfl (validateInsertRows_all t true rows [] hv)
+    | onDup f =>
+      simp only []
+      split
+      · exact h
+      · rename_i hv
+        exact onDupLoop_inv thr f rows t 0 t.notNull t.checks h rfl rfl (validateInsertRows_all t true rows [] hv)
+
+theorem bulkStmt_inv (thr : Nat) (t : Table) (rows : List Row) (h : Inv t) : Inv (t.bulkStmt thr rows).1 := by
+  unfold Table.bulkStmt
+  split
+  · exact h
+  · rename_i hg
+    apply bulkLoop_inv thr rows [] t 0 t.notNull t.checks h rfl rfl
+    intro r hr
+    simp only [List.any_eq_true, not_exists, not_and, Bool.or_eq_true, not_or, Bool.not_eq_true] at hg
+    have := (hg r hr).2
+    simpa [Table.checkNotNull] using this
+
+theorem step_inv (thr : Nat) (t : Table) (s : Stmt) (h : Inv t) : Inv (step thr t s).1 := by
+  cases s with
+  | insert rows mode => exact insertStmt_inv thr t rows mode h
+  | bulk rows => exact bulkStmt_inv thr t rows h
+  | update sel f => exact updateStmt_inv t sel f h
+  | delete sel => exact deleteWhere_inv t sel h
+  | truncate => exact clear_inv t h
+  | addPk cols => exact addPrimaryKey_inv t cols h
+  | addUnique cols => exact addUnique_inv t cols h
+  | addCheck c => exact addCheck_inv t c h
+
+theorem run_inv (thr : Nat) : ∀ (ss : List Stmt) (t : Table), Inv t → Inv (run thr t ss) := by
+  intro ss
+  induction ss with
+  | nil => intro t h; exact h
+  | cons s ss ih => intro t h; exact ih _ (step_inv thr t s h)
